@@ -72,6 +72,12 @@ extern "C" int future_one()
     f.start(&work, 1);
     f.join();
     vf_assert(g_done[1] == 1 && g_ran[3] == 1, "second run executed once, first not again");
+    // an abort() that arrives while nothing is outstanding (late cancel) must not leak into the next start
+    f.abort();
+    f.start(&work, 2);
+    f.join();
+    vf_assert(g_done[2] == 1, "third run executed");
+    vf_assert(f.isFinished() && !f.isAborted(), "isAborted() only if abort() was requested since the start");
   }
   destroyPool();
   vf_reach("end");
